@@ -20,6 +20,8 @@ STRINGS = [
     "\u00e9\u4e2d",
     "x" * 300, "\x00", "\x1f", "\r", "a\r\nb", "\x7f", "\ud7ff", "\ufffd", "=", "<<", "?", "|", ">", "@at", "`bt`", "%p",
     "'", '"', "''", "\\", "\\n", "a b", "k0", "item", "type", "config",
+    "http://example.com/index.html", "src/*.py and tests/*/conftest.py", "// not a comment", "/* neither */", "a//b", "# x", "<!--x-->",
+    "--", "%YAML 1.2", "---", "...", "&anchor", "*alias", "!!python/object:os.system", "${HOME}", "%(x)s", "{{ x }}",
 ]
 KEYS = ["k0", "k1", "k2", "item", "type", "config", "a.b", "a-b", "_u", "K", "x9", "CONFIG", "cfg", "key", "value",
         "list", "dict", "str", "none"]
